@@ -1,5 +1,5 @@
 """C06 — normalisation: one routine on every route, freed tail cleared, run limit agreed by all implementations."""
-from ..rules import tail, convert, normal, fields, eqord, casts, parser, features
+from ..rules import tail, convert, normal, fields, eqord, casts, parser, features, summary
 
 EXPL = ("Decides: SA-TAIL: the in-place normaliser stores the new length and clears [new length, previous length) (value-equal start "
         "by linear normal form; the previous length is read before any store), the dual compressor clears from the stored length to the "
@@ -22,6 +22,7 @@ def run(ctx):
         ctx.guard("C06", "limit", lambda: normal.run_limit_agreement(ctx, prog))
         ctx.guard("C06", "isnorm", lambda: normal.is_normalized_both(ctx, prog))
         ctx.guard("C06", "capacity", lambda: parser.capacity_after_collapse(ctx, prog))
+        ctx.guard("C06", "summaries", lambda: summary.check(ctx, prog, '::normalize|::is_normalized|::clone_normalized|verify_block_hash', floor=2))
         if c == "unchecked":
             ctx.guard("C06", "twins", lambda: features.twins(ctx, prog, scope='FuzzyHashData::<[^>]*>::(new|init)_from_internals|FuzzyHashDualData', floor=2))
         ctx.guard("C06", "casts", lambda: casts.census(ctx, prog, scope='hash::algorithms::normalize_|FuzzyHashData.*::normaliz', floor=1))
